@@ -125,8 +125,7 @@ def batches(ctx):
         return {"cost": v, "all": sorted(sols, key=json.dumps)}
 
     def oracle(c, r):
-        if len(R.otree_leaves(c["O"])) > 6:
-            return None, "too large for the brute-force oracle"
+        # independent dynamic programme over (object node, species) written from the event model
         m, opt = R.Oracle(c["S"]).best(c["O"], c["costs"])
         return ({json.dumps(x) for x in r["all"]} == opt and num(r["cost"]) == m), f"minimum {m}, {len(opt)} optimal solutions"
 
@@ -241,6 +240,11 @@ def extra(ctx):
                 v2l, n2 = labelled_result(dict(lc, costs=scale(lc["costs"], k)), unordered)
                 if (v0l is None) != (v2l is None) or (v0l is not None and (num(v2l) != k * num(v0l) or n2 != n0)):
                     fail({"orig": lc}, f"{'unordered' if unordered else 'ordered'} solver: scaling by {k}: {v0l},{n0} -> {v2l},{n2}", {})
+                c2 = raise_one(lc["costs"], rng)
+                if R.coherent(c2):
+                    v4l, _ = labelled_result(dict(lc, costs=c2), unordered)
+                    if v0l is not None and (v4l is None or num(v4l) < num(v0l)):
+                        fail({"orig": lc, "twin": dict(lc, costs=c2)}, f"{'unordered' if unordered else 'ordered'} solver: raising a unit cost lowered the minimum: {v0l} -> {v4l}", {})
                 v3l, n3 = labelled_result(outgroup(lc), unordered)
                 if v3l != v0l or (lc["costs"]["floss"] > 0 and n3 != n0):
                     fail({"orig": lc}, f"{'unordered' if unordered else 'ordered'} solver: outgroup changed the result: {v0l},{n0} -> {v3l},{n3}", {})
@@ -270,3 +274,31 @@ LEVEL_TEXT = ("Machine-checked on the specification optimum of plain reconciliat
               "bijections on valid reconciliations. The outgroup law, the labelled versions and run-to-run determinism are not theorems: they are exercised on the implementation (metamorphic twins, "
               "fresh processes with other hash seeds) and the model agrees with the implementation on inputs up to 10 object leaves.")
 LEVEL_NOTE = "Partial: determinism, the outgroup law and the labelled solvers rest on the metamorphic sample. Known finding F-OUTGROUP-TIES (floss = 0) is replayed. Trusted: Coq kernel, models, correspondence."
+
+
+def search(ctx):
+    """a tie is broken but no concrete failing input yet: more metamorphic twins (children swaps) and
+    direct oracle comparisons on fresh inputs, for a time budget"""
+    import time
+    rng = ctx.rng
+    t0 = time.time()
+    budget = 150 if ctx.quick() else 900
+    n = 0
+    while time.time() - t0 < budget:
+        S = R.rand_shape(rng, rng.randint(2, 5))
+        case = {"S": S, "O": R.rand_otree(rng, rng.randint(3, 7), R.shape_leaves(S)), "costs": R.rand_costs(rng, plain=True)}
+        n += 1
+        ctx.evaluations += 1
+        v0, s0 = thl_result(case)
+        m, opt = R.Oracle(case["S"]).best(case["O"], case["costs"])
+        if num(v0) != m or {json.dumps(x) for x in s0} != opt:
+            return Finding("search", case, [v0, s0], "(specification oracle)", False,
+                           f"reconcile_thl returns minimum {v0} with {len(s0)} optimal solutions; the true minimum is {m} with {len(opt)}")
+        S2, pmap = swap_species(case["S"], rng)
+        t = {"S": S2, "O": swap_object(case["O"], rng, pmap, {}), "costs": case["costs"]}
+        v1, s1 = thl_result(t)
+        if v0 != v1 or len(s0) != len(s1):
+            return Finding("search", {"orig": case, "twin": t}, {"orig": [v0, len(s0)], "twin": [v1, len(s1)]}, "(metamorphic relation)", False,
+                           f"reordering children changed the result: minimum {v0} vs {v1}, {len(s0)} vs {len(s1)} optimal solutions")
+    ctx.notes.append(f"failing-input search: {n} fresh inputs, none violates the property")
+    return None
